@@ -779,7 +779,7 @@ struct FnEmit
         case Instruction::AtomicRMW:
         {
             auto& R = cast<AtomicRMWInst>(I);
-            visiblePrologue();
+            if (isVisibleInst(I)) visiblePrologue();
             if (isPtrLoad(&I))
             {
                 std::string pp = "*(u8**)" + val(R.getPointerOperand()), op = pshadow(&I);
